@@ -41,6 +41,11 @@ def block_imag(ctx, tm, psi, as_mpdm=False):
     big = int(max(L.exact_bond_dims(tm)))
     if as_mpdm:
         big = max(big * big, int(max(psi.bond_dims)))
+    if rng.random() < 0.5:
+        # a scalar coefficient that is neither 1 nor of modulus 1: "mps_and_coeff" must normalise it
+        psi = psi.copy()
+        psi.coeff = complex(np.round(rng.uniform(0.4, 2.5), 3) * np.exp(1j * np.round(rng.uniform(0, 6), 3)))
+        run.count("imag:input-coeff-nontrivial")
     v0 = dense_state(psi)
     T = 1.0 / nh
     ref = gibbs_vec(H, T, v0)
